@@ -42,6 +42,7 @@ static std::vector<Ev> g_events;
 static std::atomic<long> g_ticket{0};
 static int g_perturb = 1;
 static int g_stall_ms = 0;
+static std::atomic<long> g_runs_worker{0}, g_runs_caller{0};   // pipeline runs entered on a thread without / with producer identity
 thread_local int tl_prod = -1;
 thread_local int tl_idx = -1;
 thread_local std::mt19937 tl_rng;
@@ -105,7 +106,12 @@ static void parse(const LogMessage &m, int &p, int &i)
     sscanf(m.message().toUtf8().constData(), "%d %d", &p, &i);
 }
 struct EnterProbe : Handler {
-    bool process(LogMessage &m) override { int p, i; parse(m, p, i); record('E', p, i, 0); return true; }
+    bool process(LogMessage &m) override
+    {
+        int p, i; parse(m, p, i); record('E', p, i, 0);
+        if (tl_prod < 0) g_runs_worker++; else g_runs_caller++;
+        return true;
+    }
 };
 struct RandomWork : Handler {   // a handler of random duration
     bool stalls = false;
@@ -210,7 +216,7 @@ int main(int argc, char **argv)
         is >> mode >> n >> per >> seed >> g_perturb >> dup >> g_stall_ms;
         if (mode.empty()) continue;
         g_events.assign((size_t)(n + 1) * per * 10 + 64, Ev { '?', 0, 0, 0 });
-        g_ticket = 0;
+        g_ticket = 0; g_runs_worker = 0; g_runs_caller = 0;
         std::atomic<int> ready{0};
         int nbar = n;            // threads that start together (n + 1 when the main thread produces too)
         auto producer = [&](int p, std::function<void(int, int)> send_one) {
@@ -227,6 +233,7 @@ int main(int argc, char **argv)
             std::ostringstream o;
             o << "RUN " << mode << " " << n << " " << per << " " << seed << " " << g_perturb << " " << dup
               << " events=" << g_ticket.load() << (g_ticket.load() > (long)g_events.size() ? " OVERFLOW" : "") << extra;
+            if (mode.find("resetwhile") != std::string::npos) o << " worker_runs=" << g_runs_worker.load() << " caller_runs=" << g_runs_caller.load();
             if (mode == "pattern") o << " fmt_checked=" << g_fmt_checked << " fmt_bad=" << g_fmt_bad << " first_bad=" << (g_fmt_first.empty() ? "-" : g_fmt_first);
             o << "\n";
             for (long k = 0; k < cnt; k++) {
